@@ -44,7 +44,7 @@ pub enum Ctl {
 	TryRestart,
 	TryGracefulRestart { sig: i32 },
 	Continue,
-	Signal,
+	Signal { sig: i32 },
 	Delete,
 	NextEnding,
 	Marker { idx: usize, asynchronous: bool },
@@ -186,7 +186,8 @@ impl M {
 			Op::GRestart => (Prio::Normal, vec![(Ctl::GracefulStop { sig: SIG_GRESTART }, None), (Ctl::Start, t)]),
 			Op::TryRestart => (Prio::Normal, vec![(Ctl::TryRestart, t)]),
 			Op::TryGRestart => (Prio::Normal, vec![(Ctl::TryGracefulRestart { sig: SIG_TRYGRESTART }, t)]),
-			Op::Signal => (Prio::Normal, vec![(Ctl::Signal, t)]),
+			Op::Signal => (Prio::Normal, vec![(Ctl::Signal { sig: SIG_PLAIN }, t)]),
+			Op::SigKill => (Prio::Normal, vec![(Ctl::Signal { sig: 9 }, t)]),
 			Op::ToWait => (Prio::High, vec![(Ctl::NextEnding, t)]),
 			Op::Delete => (Prio::Normal, vec![(Ctl::Stop, None), (Ctl::Delete, t)]),
 			Op::DeleteNow => (Prio::Urgent, vec![(Ctl::Stop, None), (Ctl::Delete, t)]),
@@ -196,7 +197,7 @@ impl M {
 			Op::RunU => (Prio::Urgent, vec![(Ctl::Marker { idx, asynchronous: false }, t)]),
 			Op::ContinueRaw => (Prio::Normal, vec![(Ctl::Continue, t)]),
 			// only used by the C06 signal side table, never under C09
-			Op::SigVar(_) => (Prio::Normal, vec![(Ctl::Signal, t)]),
+			Op::SigVar(_) => (Prio::Normal, vec![(Ctl::Signal { sig: SIG_PLAIN }, t)]),
 			Op::GStopVar(_) => (Prio::Normal, vec![(Ctl::GracefulStop { sig: SIG_GSTOP }, t)]),
 			Op::SetHook => (Prio::Normal, vec![(Ctl::SetHook, t)]),
 			Op::UnsetHook => (Prio::Normal, vec![(Ctl::UnsetHook, t)]),
@@ -440,9 +441,9 @@ impl M {
 				self.respawn();
 				self.resolve(t);
 			}
-			Ctl::Signal => {
+			Ctl::Signal { sig } => {
 				if let Cs::Running { id, .. } = self.cs {
-					self.signal(id, SIG_PLAIN);
+					self.signal(id, sig);
 				}
 				self.resolve(t);
 			}
